@@ -80,6 +80,8 @@ class RunTaskExecutable(Operation):
         self, ctx: Context, slot: Optional[int]
     ) -> OperationExecutionHandle:
         process = None
+        stdout_output = None
+        stderr_output = None
         try:
             self._output_path.mkdir(parents=True, exist_ok=True)
 
@@ -154,6 +156,10 @@ class RunTaskExecutable(Operation):
             # N.B. `subprocess` raises a `ValueError` when the operating system
             # cannot be handed the command at all (e.g., it contains a NUL byte
             # or a character that cannot be encoded).
+            # The log files may have been opened already; do not keep them open.
+            for output in (stdout_output, stderr_output):
+                if output is not None:
+                    output.finish()
             raise TaskFailed(task_identifier=self._identifier).add_extra_context(
                 str(ex)
             )
@@ -163,6 +169,16 @@ class RunTaskExecutable(Operation):
         assert handle.stderr is not None
         handle.stdout.finish()
         handle.stderr.finish()
+
+        # The child has been reaped and its output has been read to the end:
+        # release the `Popen` object and its pipes (an error raised below keeps
+        # this frame, and with it the handle, alive until the end of the run).
+        if handle.process is not None:
+            handle.process.returncode = handle.returncode
+            for pipe in (handle.process.stdout, handle.process.stderr):
+                if pipe is not None:
+                    pipe.close()
+            handle.process = None
 
         # The arguments and options are recorded for every execution (also for
         # one that failed), next to the logs of what the command printed.
